@@ -878,7 +878,7 @@ func Gen(t *rapid.T) Case {
 
 	// experiments: distinct instants (close together, so that zone offsets reorder the texts)
 	nexp := rapid.IntRange(1, 4).Draw(t, "nexp")
-	sameInstant := nexp >= 2 && rapid.IntRange(0, 19).Draw(t, "same_instant") == 0
+	sameInstant := nexp >= 2 && rare(t, "same_instant", 8)
 	eat := at + int64(rapid.IntRange(1, 200000).Draw(t, "expbase"))
 	var exps []ExpT
 	for i := 0; i < nexp; i++ {
@@ -934,7 +934,7 @@ func Gen(t *rapid.T) Case {
 	}
 	c.Exps = exps
 
-	allowMissingDen := rapid.IntRange(0, 11).Draw(t, "allow_missing_den") == 0
+	allowMissingDen := rare(t, "allow_missing_den", 9)
 	if allowMissingDen {
 		c.Intent = append(c.Intent, "missing_den")
 	}
